@@ -9,45 +9,6 @@ import (
 	"strings"
 )
 
-// E3.float: IEEE 754 binary64 field constants in FromFloat64.
-func ruleLayoutFloat(c *Ctx) {
-	p := c.P
-	fd := c.fn("FromFloat64")
-	if fd == nil {
-		return
-	}
-	env := p.newCanonEnv(fd)
-	// statements between `fbits := math.Float64bits(f)` and `shift := ...`
-	start, end := -1, -1
-	for i, s := range fd.Body.List {
-		cs := env.canonStmt(s)
-		if strings.Contains(cs, "call(math.Float64bits;P0)") && start < 0 {
-			start = i
-		}
-		if as, ok := s.(*ast.AssignStmt); ok && as.Tok == token.DEFINE && len(as.Lhs) == 1 && p.exprStr(as.Lhs[0]) == "shift" {
-			end = i
-		}
-	}
-	if start < 0 || end < 0 || end-start != 5 {
-		c.undecided("float.fields", fd, "binary64 unpacking block not found in the expected place", "C09")
-		return
-	}
-	env = p.newCanonEnv(fd)
-	got := env.canonStmts(fd.Body.List[start : end+1])
-	// binary64: 1 sign bit, 11 exponent bits (bias 1023), 52 fraction bits, hidden bit 2^52, subnormal exponent -1022
-	const frac, ebits, bias = 52, 11, 1023
-	want := fmt.Sprintf("L0:=call(math.Float64bits;P0);L1:=(K(%d)&L0);L2:=conv(int16;((L0>>K(%d))&K(%d)));L3:=((K(%d)&L0)!=K(0));if((K(0)==L2)){L2=K(%d)}else{L1|=K(%d);L2-=K(%d)};L4:=conv(int;(K(%d)-L2))",
-		uint64(1)<<frac-1, frac, 1<<ebits-1, uint64(1)<<63, 1-bias, uint64(1)<<frac, bias, frac)
-	c.check(got == want, "float.fields", fd.Body.List[start], "mantissa 2^52-1, exponent >>52 & 0x7ff, sign bit 63, hidden bit 2^52, bias 1023, subnormal exponent -1022, shift = 52 - exp",
-		"FromFloat64 does not unpack the float64 as IEEE 754 binary64 requires (mantissa mask 2^52-1, 11-bit exponent with bias 1023, subnormals use exponent -1022 without the hidden bit): "+got, "C09")
-	// the exact-integer shortcut: shift == 0 -> compose(neg, {mant,0}, bias)
-	if end+1 < len(fd.Body.List) {
-		g := env.canonStmt(fd.Body.List[end+1])
-		w := fmt.Sprintf("if((K(0)==L4)){return call(compose;L3,lit(uint128{L1,K(0)}),K(%d))}", specBias)
-		c.check(g == w, "float.exact", fd.Body.List[end+1], "shift 0: the mantissa is the value", "FromFloat64: with a zero shift the mantissa itself is the integer value: "+g, "C09")
-	}
-}
-
 // E6.lowword: the low word of a two-limb significand stands for the value
 // only where the high word is known to be zero.
 func ruleLowWord(c *Ctx) {
